@@ -168,6 +168,13 @@ def run(ctx):
             kod = [k for k in g.calls(r'^tokio::process::Command::kill_on_drop$') if k.args and g.root_local(k.args[0]) == cmd and g.dom(k.bb, sp.bb)
                    and (op_const(k.args[1]) or {}).get('v') is True]
             is_tokio = sp.callee.startswith('tokio::')
+            if not kod and cmd is not None:
+                # `let mut cmd = base_command(..)`: a helper of the crate that builds the command and ties it to the future itself
+                for d8 in g.defs(cmd):
+                    if d8[2] == 'call':
+                        H8 = P.fns.get(Site(g, d8[0], d8[3]).callee or '')
+                        if H8 is not None and H8.crate == 'rip_tools' and any((op_const(k.args[1]) or {}).get('v') is True for k in H8.calls(r'^tokio::process::Command::kill_on_drop$') if len(k.args) > 1):
+                            kod = [Site(g, d8[0], d8[3])]
             ok8 = bool(kod) and is_tokio
             ctx.ob('C11.8', g, 'child-dies-with-the-call:' + sp.name, ok8,
                    '%s %s' % (sp.callee, 'on a command configured with kill_on_drop(true)' if ok8 else
